@@ -6,6 +6,8 @@ def spec():
         "Status": {"type": "string", "enum": ["active", "in-active", "on hold"]},
         "Level": {"type": "integer", "enum": [1, 2, 3]},
         "Address": {"type": "object", "required": ["street"], "properties": {"street": {"type": "string"}, "zip-code": {"type": "string"}}},
+        # reachable ONLY through Person.grid (a list of lists): its hooks are registered through that nesting or not at all
+        "Cell": {"type": "object", "required": ["cell-id"], "properties": {"cell-id": {"type": "string"}, "zip-code": {"type": "string"}}},
         "Person": {
             "type": "object",
             "required": ["firstName", "mood"],
@@ -26,7 +28,7 @@ def spec():
                 "level": {"$ref": "#/components/schemas/Level"},
                 "addresses": {"type": "array", "items": {"$ref": "#/components/schemas/Address"}},
                 # a model three levels down in the field type (list of lists), with a renamed property (zip-code)
-                "grid": {"type": "array", "items": {"type": "array", "items": {"$ref": "#/components/schemas/Address"}}},
+                "grid": {"type": "array", "items": {"type": "array", "items": {"$ref": "#/components/schemas/Cell"}}},
             },
         },
         "Stamps": {
